@@ -322,7 +322,7 @@ pub fn gen_value_text(src: &mut Src, depth: usize, o: &TextOpts, out: &mut Strin
             J::Str(s)
         }
         4 => {
-            let n = src.below(o.max_width + 1);
+            let n = if depth <= 1 && o.max_depth > 3 && src.chance(10) { src.size(200) } else { src.below(o.max_width + 1) };
             let mut items: Vec<J> = vec![];
             out.push('[');
             for i in 0..n {
@@ -355,7 +355,9 @@ pub fn gen_value_text(src: &mut Src, depth: usize, o: &TextOpts, out: &mut Strin
             J::Arr(items)
         }
         _ => {
-            let n = src.below(o.max_width + 1);
+            // now and then a wide object (tens to hundreds of members, keys in no particular order)
+            let wide = depth <= 1 && o.max_depth > 3 && src.chance(10);
+            let n = if wide { src.size(200) } else { src.below(o.max_width + 1) };
             let mut m = BTreeMap::new();
             let mut keys: Vec<String> = vec![];
             out.push('{');
@@ -366,6 +368,8 @@ pub fn gen_value_text(src: &mut Src, depth: usize, o: &TextOpts, out: &mut Strin
                 ws(src, o, out);
                 let k = if o.dup_keys && !keys.is_empty() && src.chance(50) {
                     keys[src.below(keys.len())].clone()
+                } else if wide && src.chance(200) {
+                    format!("{}{}", ["k", "key_", "", "z"][src.below(4)], src.below(2 * n + 1))
                 } else if src.chance(190) {
                     crate::gen_doc::gen_key(src, true)
                 } else {
